@@ -9,6 +9,7 @@ import warnings
 from dataclasses import dataclass
 from typing import Any, Callable, Dict, Iterator, List, Optional
 
+import core
 from core import Case, Prop, SelfCheckFailure, exc_category, DOCUMENTED, pack_stable, ISOLATION
 from gen import hx, unhx, rbytes
 
@@ -214,12 +215,16 @@ def _isolated(obj, payload: Dict[str, Any]):
 
 
 def _from_raw_sfx(raw: bytes, sfx: bytes):
-    """factory on raw + suffix; a documented refusal of trailing octets is one of the two behaviours the
-    statement allows (C09 clause) — then the PDU alone is decoded"""
+    """factory on raw + suffix under the C09 clause: octets after the declared PDU are either ignored or refused with a
+    documented error. The model op falls back to the PDU alone when raw + suffix is refused and a suffix was given; a
+    buffer that is longer than it declares WITHOUT a separate suffix goes through core.cfdp_tolerant (the model ignores
+    the excess for every kind but NAK)."""
+    if not sfx:
+        return core.cfdp_tolerant(PduFactory.from_raw, raw)
     try:
         return PduFactory.from_raw(raw + sfx)
     except Exception as e:  # noqa
-        if sfx and exc_category(e) in DOCUMENTED:
+        if exc_category(e) in DOCUMENTED:
             return PduFactory.from_raw(raw)
         raise
 
